@@ -463,7 +463,13 @@ func (e *evalCtx) fieldStep(cur sval, idx int) sval {
 		if cur.st != nil {
 			st = cur.st
 		}
-		return e.mk(sel(e.t.h.get(st, hv), cur.term), ft)
+		v := e.mk(sel(e.t.h.get(st, hv), cur.term), ft)
+		if _, isSl := ft.Underlying().(*types.Slice); isSl {
+			// representation invariant of every slice stored in the heap
+			x := v.term
+			e.t.assume(fmt.Sprintf("(and (<= 0 (sl_off %s)) (<= 0 (sl_len %s)) (<= (sl_len %s) (sl_cap %s)) (<= 0 (sl_arr %s)) (<= (sl_arr %s) %s))", x, x, x, x, x, x, e.t.h.get(st, "alloc")))
+		}
+		return v
 	}
 	// struct value
 	s := strings.Trim(e.t.sortOf(T), "|")
@@ -561,7 +567,11 @@ func (e *evalCtx) callExpr(x *sx) sval {
 		if e.old == nil {
 			e.fail("old() not available here")
 		}
-		return e.with(e.old).eval(args[0])
+		v := e.with(e.old).eval(args[0])
+		if v.st == nil {
+			v.st = e.old
+		}
+		return v
 	case "at":
 		if args[0].op != "str" {
 			e.fail("at(\"label\", e)")
@@ -570,7 +580,11 @@ func (e *evalCtx) callExpr(x *sx) sval {
 		if !ok {
 			e.fail("unknown site %q", args[0].val)
 		}
-		return e.with(st).eval(args[1])
+		v := e.with(st).eval(args[1])
+		if v.st == nil {
+			v.st = st
+		}
+		return v
 	case "snap":
 		// snap(e): value of e with element reads pinned to the evaluation state
 		v := e.eval(args[0])
@@ -784,6 +798,10 @@ func (e *evalCtx) callExpr(x *sx) sval {
 		}
 		hv := t.elemHV(sl.Elem())
 		return boolv(eq(sel(t.h.get(e.st, hv), "(sl_arr "+v.term+")"), sel(t.h.get(v.st, hv), "(sl_arr "+v.term+")")))
+	case "fresh_arr":
+		// fresh_arr(s): the backing array of slice s was allocated during this call
+		v := e.eval(args[0])
+		return boolv("(> (sl_arr " + v.term + ") " + t.h.get(e.old, "alloc") + ")")
 	case "fresh":
 		// fresh(p): allocated during this call (not present in the old state)
 		v := e.eval(args[0])
